@@ -467,3 +467,8 @@ M("C20", "std-names-generator", GET, "        std_qids = tuple(_quantities.gener
 T("C20", "twin-std-names-list", GET, "        std_qids = tuple(_quantities.generate_qids_by_kind(self._invariant.quantities, _quantities.QuantityKind.ANY_STD, ))\n        for v in self._variants:", "        std_qids = list(_quantities.generate_qids_by_kind(self._invariant.quantities, _quantities.QuantityKind.ANY_STD, ))\n        for v in self._variants:")
 M("C20", "portable-pairs-not-retupled", "simultaneous/main.py", "            self_v.assign_strict({ n: tuple(v) for n, v in portable_v.items() }, )", "            self_v.assign_strict(portable_v, )", "C20-R4")
 M("C20", "change-logly-no-rebuild", "simultaneous/main.py", "        self._invariant._populate_derived_attributes()\n", "", "C20-R7")
+M("C10", "trim-start-off-by-one", SM, "            self.start += int(slice_from)", "            self.start += int(slice_from) + 1", "C10-R1")
+M("C10", "trim-keeps-one-trailing", SM, "        slice_to = -num_trailing if num_trailing else None", "        slice_to = -num_trailing + 1 if num_trailing > 1 else None", "C10-R1")
+M("C10", "trim-all-missing-not-reset", SM, "        if num_trailing == self.data.shape[0]:\n            self.reset()\n            return self\n", "", "C10-R1")
+T("C10", "twin-trim-or-none", SM, "        slice_to = -num_trailing if num_trailing else None", "        slice_to = -num_trailing or None")
+T("C10", "twin-trim-demorgan", SM, "        if not num_leading and not num_trailing:\n            return self", "        if not (num_leading or num_trailing):\n            return self")
